@@ -53,17 +53,31 @@ class Trace(object):
         self.kmis = []               # dict(axis, start, end): tracked frame differs from what K2's own arithmetic predicts
         self.kmis_active = {}
         self.kmis_steps = 0
+        self.residues = []           # dict(axis, start, end, value, mech): constant physical offset left behind, see Engine._residue
+        self.res_active = {}
 
-    def mechanism_at(self, idx, since=None):
+    def mechanism_at(self, idx, since=None, residues=True):
         """Known-finding mechanism explaining a violation at step idx (first-cause rule): the mechanism of the earliest
         tracking divergence that is active at that step; None when there is none or it is unexplained."""
         m = self._mechanism_at(idx, since)
+        if m is None and residues and not self._anything_active(idx, since):
+            # nothing diverges in the filter's tracking at this step, but the tool may still sit at a constant offset that an
+            # explained divergence left behind earlier (the offset survives relative moves, and absolute ones once a G92 was
+            # executed at the offset position, until the axis is homed): the after-effect has the cause of its first step
+            lo = idx if since is None else min(idx, since)
+            res = [e for e in self.residues if e["start"] <= idx and (e["end"] is None or lo < e["end"])]
+            if res and all(e["mech"] is not None for e in res):
+                m = min(res, key=lambda e: e["start"])["mech"]
         if m == "g92_xyz_offset_sign" and K2_MODEL_DECIDES:
             # K2 is recorded by its exact arithmetic: a tracked frame that differs from what that arithmetic predicts is something else
             lo = idx if since is None else min(idx, since)
             if any(e["start"] <= idx and (e["end"] is None or lo < e["end"]) for e in self.kmis):
                 return None
         return m
+
+    def _anything_active(self, idx, since=None):
+        lo = idx if since is None else min(idx, since)
+        return any(e["start"] <= idx and (e["end"] is None or lo < e["end"]) for e in self.div_log + self.taints)
 
     def _mechanism_at(self, idx, since=None):
         lo = idx if since is None else min(idx, since)
@@ -221,6 +235,26 @@ class Engine(object):
                 if tr.first_div is None:
                     tr.first_div = (rec["idx"], rec.get("cmd"), what, mech)
 
+    def _residue(self, rec):
+        """Physical after-effects.  Outside episodes the real tool and the file's tool coincide; an offset between them that
+        stays constant from step to step is one event, dated and explained at the step where it appeared (see mechanism_at)."""
+        if self.open:
+            return
+        tr = self.trace
+        for k, ax in enumerate("xyz"):
+            d = self.A.pos[k] - self.B.pos[k]
+            cur = tr.res_active.get(ax)
+            if cur is not None and abs(d - cur["value"]) <= TOL and abs(d) > TOL:
+                continue
+            if cur is not None:
+                cur["end"] = rec["idx"]
+                del tr.res_active[ax]
+            if abs(d) > TOL:
+                ent = dict(axis=ax, start=rec["idx"], end=None, value=d, mech=None)
+                ent["mech"] = tr.mechanism_at(rec["idx"], residues=False)   # axes are independent: no chaining
+                tr.res_active[ax] = ent
+                tr.residues.append(ent)
+
     def step(self, idx, step):
         kind = step[0]
         rec = dict(idx=idx, kind=kind, open_before=self.open, enabled_before=self.enabled,
@@ -257,6 +291,7 @@ class Engine(object):
         rec["B_after"] = self.B.snapshot()
         rec["open_after"] = self.open
         rec["enabled_after"] = self.enabled
+        self._residue(rec)
         if len(self.regions) != len(self._regsnap) or (self.regions and self.regions[-1] is not self._regsnap[-1]):
             self._regsnap = tuple(self.regions)
         rec["regs"] = self._regsnap
